@@ -1,6 +1,7 @@
 package main
 
 import (
+	"sort"
 	"fmt"
 	"go/token"
 	"go/types"
@@ -372,6 +373,119 @@ func c17Owners(r *Report, lt *lifetimeTable) {
 		r.Check(closedLifetime[del], "R2", "closed-by-defer/Torrent.Deleted", token.NoPos, "Torrent.Deleted is closed in a deferred function", "Torrent.Deleted is not closed by any deferred function: Kill would wait forever")
 	}
 
+	// the channels clients wait on exist before the object can be seen by anyone: the store of the made channel
+	// dominates every return of the function that makes it and every call or go statement that hands the object on.
+	// (A rejected duplicate torrent is returned "dead" — Done and Deleted closed; with a nil Deleted, Kill on it would
+	// wait on a nil channel for ever.)
+	{
+		watched := map[*types.Var]string{}
+		for fv, nm := range lt.fields {
+			watched[fv] = nm
+		}
+		for ev := range lt.eventDone {
+			watched[ev] = "Event"
+		}
+		nInit := 0
+		for _, f := range p.SrcFuncs() {
+			pk := relPkg(f)
+			if pk != "tor" && pk != "peer" {
+				continue
+			}
+			allInstrs(f, func(in ssa.Instruction) {
+				st, ok := in.(*ssa.Store)
+				if !ok {
+					return
+				}
+				fa, ok := st.Addr.(*ssa.FieldAddr)
+				if !ok {
+					return
+				}
+				fv := fieldVar(fa)
+				if _, w := watched[fv]; !w {
+					return
+				}
+				if _, isMake := st.Val.(*ssa.MakeChan); !isMake {
+					return
+				}
+				nInit++
+				r.Fn(f)
+				key := fmt.Sprintf("%s/%s.%s-made-before-use", fname(f), typeShort(derefType(fa.X.Type())), fv.Name())
+				bad := ""
+				allInstrs(f, func(i2 ssa.Instruction) {
+					if bad != "" || i2 == in {
+						return
+					}
+					switch x := i2.(type) {
+					case *ssa.Return:
+						if !instrDominates(st, x) {
+							bad = "the return at " + p.pos(x.Pos())
+						}
+					case ssa.CallInstruction:
+						uses := false
+						for _, a := range x.Common().Args {
+							if a == fa.X {
+								uses = true
+							}
+						}
+						if mc, isMC := x.Common().Value.(*ssa.MakeClosure); isMC {
+							for _, b := range mc.Bindings {
+								if b == fa.X {
+									uses = true
+								}
+							}
+						}
+						if uses && !instrDominates(st, x.(ssa.Instruction)) {
+							bad = "the call at " + p.pos(x.Pos()) + " that hands the object on"
+						}
+					}
+				})
+				r.Check(bad == "", "R2", key, st.Pos(), "the channel is made before the object is returned or handed on", "the channel "+fv.Name()+" is made in "+fname(f)+" only after "+bad+": on that path the object is visible with a nil channel, and whoever selects on it (Kill waiting for Deleted, a client waiting for Done) waits for ever")
+			})
+		}
+		r.Sentinel("R2.made", nInit, 5)
+	}
+
+	// an owner announces its death before its exit sequence can block: in the exit timeline of the function whose
+	// defers close the owner's Done (defers in reverse registration order, each deferred closure's statements in order,
+	// its own nested defers last), no blocking channel operation comes before close(Done). Otherwise the owner can wait
+	// (flushing events to a full queue) for a party that is itself waiting for the owner and can only be released by
+	// Done.
+	for _, done := range lt.eventDone {
+		for _, f := range p.SrcFuncs() {
+			pk := relPkg(f)
+			if (pk != "tor" && pk != "peer") || f.Parent() != nil {
+				continue
+			}
+			tl := exitTimeline(f)
+			at := -1
+			for i, it := range tl {
+				if it.close != nil {
+					if cs := chanSourceOf(it.close); cs.Field == done {
+						at = i
+						break
+					}
+				}
+			}
+			if at < 0 {
+				continue
+			}
+			r.Fn(f)
+			var first *exitItem
+			for i := 0; i < at; i++ {
+				if tl[i].blocking != nil {
+					first = &tl[i]
+					break
+				}
+			}
+			key := fmt.Sprintf("%s/close(%s)-before-blocking-exit-work", fname(f), lt.fields[done])
+			if first == nil {
+				r.Ok("R2", key, tl[at].in.Pos(), "%s is closed before the exit sequence of %s performs any blocking channel operation", lt.fields[done], fname(f))
+			} else {
+				r.Fail("R2", key, tl[at].in.Pos(), "the exit sequence of %s performs a blocking channel operation (%s) before it closes %s: the owner waits for room in its counterpart's queue while the counterpart waits for the owner, and only the closed %s could release it", fname(f), p.pos(first.in.Pos()), lt.fields[done], lt.fields[done])
+			}
+		}
+	}
+
 	// peer.Run specifics
 	run := p.Func("peer", "Run")
 	if !r.Anchor("R2", "peer.Run", run != nil) {
@@ -647,6 +761,25 @@ func c17Deletion(r *Report) {
 		}
 		r.Check(ok, "R4", "Torrent.run/defer-Pieces.Del", run.Pos(), "run's exit defer frees the piece store on every exit", "no deferred function of run that dominates every return calls Pieces.Del: a deleted torrent keeps its memory")
 	}
+	// … and the store stays empty afterwards: a peer that is still delivering a chunk while the torrent is deleted must
+	// find the deleted flag set in the same lock hold in which it would allocate (C03.R2 re-evaluated)
+	if c := newPieceCtx(r, "R4"); c.ok {
+		if allocF := p.Func("alloc", "Alloc"); r.Anchor("R4", "alloc.Alloc", allocF != nil) {
+			calls, _ := p.callSitesOf(allocF)
+			n := 0
+			for _, cs := range calls {
+				cc, ok := cs.(*ssa.Call)
+				if !ok || relPkg(cs.Parent()) != "tor/piece" {
+					continue
+				}
+				n++
+				r.Fn(cs.Parent())
+				delG, where := c.reval().establishedAt(cc, c.factNotDeleted(), 0)
+				r.Check(delG, "R4", "piece/Alloc/not-after-Del", cc.Pos(), "nothing is allocated once the store is deleted", "alloc.Alloc is not preceded on every path "+where+" by !ps.deleted tested in the same lock hold: a chunk that arrives while the torrent is being deleted allocates memory that nothing releases — deletion is not complete")
+			}
+			r.Sentinel("R4.alloc", n, 1)
+		}
+	}
 }
 
 func reachableFromSuccs(b *ssa.BasicBlock) map[*ssa.BasicBlock]bool {
@@ -655,6 +788,70 @@ func reachableFromSuccs(b *ssa.BasicBlock) map[*ssa.BasicBlock]bool {
 		for k := range reachableFrom(s) {
 			out[k] = true
 		}
+	}
+	return out
+}
+
+// exitItem: one step of a function's exit timeline.
+type exitItem struct {
+	in       ssa.Instruction
+	close    ssa.Value // close(ch)
+	blocking *chanOp   // a blocking channel operation
+}
+
+// exitTimeline: what f does on its way out, in execution order: its defers last-registered first; a deferred closure
+// contributes its closes and blocking channel operations in source order followed by its own deferred work.
+func exitTimeline(f *ssa.Function) []exitItem {
+	return exitTimelineD(f, 0)
+}
+
+func exitTimelineD(f *ssa.Function, depth int) []exitItem {
+	var defers []*ssa.Defer
+	allInstrs(f, func(in ssa.Instruction) {
+		if d, ok := in.(*ssa.Defer); ok {
+			defers = append(defers, d)
+		}
+	})
+	sort.SliceStable(defers, func(i, j int) bool {
+		if instrDominates(defers[i], defers[j]) {
+			return true
+		}
+		if instrDominates(defers[j], defers[i]) {
+			return false
+		}
+		return defers[i].Pos() < defers[j].Pos()
+	})
+	var out []exitItem
+	for k := len(defers) - 1; k >= 0; k-- {
+		d := defers[k]
+		if bi, ok := d.Call.Value.(*ssa.Builtin); ok {
+			if bi.Name() == "close" && len(d.Call.Args) == 1 {
+				out = append(out, exitItem{in: d, close: d.Call.Args[0]})
+			}
+			continue
+		}
+		df := deferredFunc(d)
+		if df == nil || df.Blocks == nil || df.Parent() == nil || depth > 2 {
+			continue
+		}
+		var items []exitItem
+		allInstrs(df, func(in ssa.Instruction) {
+			if c, ok := in.(*ssa.Call); ok {
+				if bi, ok := c.Call.Value.(*ssa.Builtin); ok && bi.Name() == "close" && len(c.Call.Args) == 1 {
+					items = append(items, exitItem{in: in, close: c.Call.Args[0]})
+				}
+			}
+		})
+		for _, op := range chanOpsIn(df) {
+			if op.Kind == opSelect && !op.Blocking {
+				continue
+			}
+			o := op
+			items = append(items, exitItem{in: op.Instr, blocking: &o})
+		}
+		sort.SliceStable(items, func(i, j int) bool { return items[i].in.Pos() < items[j].in.Pos() })
+		out = append(out, items...)
+		out = append(out, exitTimelineD(df, depth+1)...)
 	}
 	return out
 }
